@@ -217,6 +217,27 @@ pub fn sweep_program(n: usize) -> String {
     s
 }
 
+/// two more families for the file-size sweep, so that the 8 KiB refill boundary also meets the globals
+/// table at the end of the file (n top-level variables) and a class member table in the middle (one
+/// object with n fields); each returns (source, expected output)
+pub fn sweep_family(kind: usize, n: usize) -> (String, String) {
+    match kind {
+        0 => (sweep_program(n), (0..n).map(|i| format!("row {} of the sweep é\n", i)).collect()),
+        1 => {
+            let mut s = String::from("print(\"globals\\n\")");
+            for i in 0..n { s.push_str(&format!(";\nlet g{} = {}", i, i)) }
+            s.push_str(&format!(";\nprint(\"~ ~ ~\\n\", g0, g{}, g{})", n / 2, n - 1));
+            (s, format!("globals\n0 {} {}\n", n / 2, n - 1))
+        }
+        _ => {
+            let mut s = String::from("let o = object begin ");
+            for i in 0..n { s.push_str(&format!("let f{} = {}; ", i, i)) }
+            s.push_str(&format!("function last() -> this.f{} end;\nprint(\"~ ~ ~\\n\", o.f0, o.f{}, o.last())", n - 1, n / 2));
+            (s, format!("0 {} {}\n", n / 2, n - 1))
+        }
+    }
+}
+
 /// a program whose bytecode is larger than `fml`'s 8 KiB file buffer; `pad` shifts every later
 /// constant so that different constants straddle the refill boundaries
 pub fn big_program(pad: usize, rows: usize) -> String {
